@@ -709,9 +709,10 @@ def check_layout(ctx, chk, prog, facts):
         return
     offs = {f['name']: f['offset'] for f in adt['fields']}
     file = pro['file']
-    if 'packed' not in adt['repr'] or ' c' not in adt['repr'].lower().replace('(', ' ').replace('|', ' '):
-        if 'C' not in adt['repr']:
-            chk.fail('C01.8', 'repr', 'cpu::Registers is not repr(C, packed): %s' % adt['repr'], 'src/cpu.rs', None)
+    if 'pack: Some' in adt['repr'] and 'IS_C' in adt['repr']:
+        chk.ok('C01.8', 'repr', sample={'repr': 'C, packed'})
+    else:
+        chk.fail('C01.8', 'repr', 'cpu::Registers is not repr(C, packed): %s' % adt['repr'], 'src/cpu.rs', None)
     pcode, pline = const_array(pro)
     ecode, eline = const_array(epi)
     if not pcode or not ecode:
